@@ -74,9 +74,11 @@ func C10(c *core.Ctx) {
 		} else {
 			c.Add(&core.Case{Class: "QuoteToProto/" + class, SkipModel: true, Impl: core.Ls()})
 		}
-		if qp, err := abi.QuoteToProto(raw); err == nil {
-			noPanic("QuoteToAbiBytes(parsed)/"+class, desc, nt, func() { _, _ = abi.QuoteToAbiBytes(qp) })
-		}
+		noPanic("QuoteToAbiBytes(parsed)/"+class, desc, nt, func() {
+			if qp, err := abi.QuoteToProto(raw); err == nil {
+				_, _ = abi.QuoteToAbiBytes(qp)
+			}
+		})
 		if class == "mutated" && r.Intn(3) != 0 {
 			return
 		}
@@ -312,7 +314,10 @@ func C10(c *core.Ctx) {
 		for wi, wv := range []*world.World{w, wM} {
 			tcbU, qeU, _, _ := wv.URLs()
 			var odd []*pb.QuoteV4
-			if qa, err := abi.QuoteToProto(wv.Quote.Raw); err == nil {
+			var qa any
+			var err error
+			_ = safely(func() { qa, err = abi.QuoteToProto(wv.Quote.Raw) })
+			if qa != nil && err == nil {
 				base := qa.(*pb.QuoteV4)
 				odd = append(odd, base)
 				for _, n := range []int{0, 1, 2, 15, 17} {
